@@ -64,7 +64,7 @@ def make_pair(rng, r):
         rho = gen.density(rng, d, rk(), cplx)
         sig = rho.copy()
     else:
-        rho = gen.density(rng, d, d, cplx)
+        rho = 0.9 * gen.density(rng, d, d, cplx) + 0.1 * np.eye(d) / d  # lambda_min >= 0.1/d, so the 1e-6 perturbation stays a density operator
         h = gen.hermitian(rng, d, cplx)
         h -= np.trace(h) / d * np.eye(d)
         sig = rho + 1e-6 * h / np.linalg.norm(h)
